@@ -21,12 +21,6 @@ import XotModel.Driver.Tree
 
 namespace XotModel.Driver
 
-def parseNatList (w : String) : Option (List Nat) :=
-  if w == "-" then some [] else
-  (w.splitOn ",").foldr (fun part acc => match acc, part.toNat? with
-    | some l, some n => some (n :: l)
-    | _, _ => none) (some [])
-
 def parseBool01 (w : String) : Option Bool :=
   if w == "0" then some false else if w == "1" then some true else none
 
